@@ -224,10 +224,22 @@ static int hook (void)
     }
   else
     {
-      /* users accepted in this cycle get the next ids, in slot-independent accept order (one accept per cycle) */
+      /* a user first seen now was accepted in this cycle; its number is the one the master gave it (accept
+       * order) - a user accepted AND removed inside one cycle is never seen here but still uses up a number */
       for (int i = 0; i < max_users; i++)
-        if (all_users[i] && !uid_of (all_users[i]) && naccepted + 1 < MAXCL)
-          cip[++naccepted] = all_users[i];
+        if (all_users[i] && !uid_of (all_users[i]) && all_users[i]->ob)
+          {
+            char res[64];
+            int k = 0;
+            if (vh_apply_str (all_users[i]->ob, "query_oid", 0, 0, res, sizeof res) == 0 && res[0] == '"' && res[1] == 'u')
+              k = atoi (res + 2);
+            if (k >= 1 && k < MAXCL)
+              {
+                cip[k] = all_users[i];
+                if (k > naccepted)
+                  naccepted = k;
+              }
+          }
       print_end ();
     }
   in_cycle = 0;
